@@ -3,6 +3,7 @@
    the Go code byte for byte), model/LogqlMetricSem.v (meaning of the emitted SQL shapes, reference). *)
 From Coq Require Import List ZArith NArith QArith Qcanon String Bool.
 From Qryn Require Import model.Sql model.Logql model.LogqlPlan model.LogqlMetricSem proofs.LogqlMetricProofs.
+From Qryn Require Import model.LogqlMetricPost proofs.LogqlMetricPostProofs.
 Import ListNotations.
 Open Scope Z_scope.
 
@@ -175,3 +176,63 @@ Theorem simple_label_filters_applied : forall ms ppl,
   flat_map (fun sb => match fst sb, snd sb with PLabelFilter f, true => [f] | _, _ => [] end) (combine ppl (simple_ops ppl)).
 Proof. intros ms ppl. split; [apply simple_ops_label_filters|apply simple_filters_applied]. Qed.
 Print Assumptions simple_label_filters_applied.
+
+(* ---------- FixPeriodPlanner, for every row stream and every batching ---------- *)
+(* the transcription of FixPeriodPlanner (tied to the Go code by harness metricpost) IS its specification: the stream
+   falls into maximal runs of one fingerprint (series); slot i of a series holds the value of the LAST row of the run
+   whose range window covers the slot, zero without one; exactly the non-zero slots are reported, series by series *)
+Theorem fix_period_equals_spec : forall (V : Type) (is_zero : V -> bool) (zero : V) from step d to (bs : list (list (pentry V))),
+  0 <= Z.quot (to - from) step + 1 ->
+  fix_period is_zero zero from to step d bs = fix_period_spec is_zero zero from step d to bs.
+Proof. exact @fix_period_is_spec. Qed.
+Print Assumptions fix_period_equals_spec.
+
+(* how the upstream cuts the stream into batches does not matter *)
+Theorem fix_period_batching_irrelevant : forall (V : Type) (is_zero : V -> bool) (zero : V) from step d to (bs bs' : list (list (pentry V))),
+  List.concat bs = List.concat bs' ->
+  fix_period is_zero zero from to step d bs = fix_period is_zero zero from to step d bs'.
+Proof. exact @fix_period_batching. Qed.
+Print Assumptions fix_period_batching_irrelevant.
+
+(* every reported point: on the step grid inside the array, not zero, and its value is the value of the last row of
+   its series whose range window covers its slot (every step gets the value of its bucket, nothing else) *)
+Theorem fix_period_point_is_last_covering_row :
+  forall (V : Type) (is_zero : V -> bool) (zero : V) from step d, is_zero zero = true ->
+  forall to (bs : list (list (pentry V))) b (e : pentry V),
+  0 <= Z.quot (to - from) step + 1 ->
+  List.In b (fix_period is_zero zero from to step d bs) -> List.In e b ->
+  exists i run r1 x r2,
+    0 <= i < Z.quot (to - from) step + 1 /\ pe_ts e = from + i * step /\ is_zero (pe_val e) = false /\
+    List.In run (runs (List.concat bs)) /\ run = (r1 ++ x :: r2)%list /\ pe_fp x = pe_fp e /\ pe_val x = pe_val e /\
+    covers from step d x i = true /\ (forall y, List.In y r2 -> covers from step d y i = false) /\ List.In x (List.concat bs).
+Proof. exact @fix_period_sound. Qed.
+Print Assumptions fix_period_point_is_last_covering_row.
+
+(* no non-zero point is lost: the slot of a series whose last covering row is not zero is reported with that value *)
+Theorem fix_period_reports_nonzero_slot :
+  forall (V : Type) (is_zero : V -> bool) (zero : V) from step d to (bs : list (list (pentry V))) run r1 x r2 i,
+  0 <= Z.quot (to - from) step + 1 ->
+  List.In run (runs (List.concat bs)) -> run = (r1 ++ x :: r2)%list ->
+  0 <= i < Z.quot (to - from) step + 1 -> covers from step d x i = true -> (forall y, List.In y r2 -> covers from step d y i = false) ->
+  is_zero (pe_val x) = false ->
+  exists b, List.In b (fix_period is_zero zero from to step d bs) /\
+            List.In {| pe_ts := from + i * step; pe_fp := pe_fp x; pe_val := pe_val x |} b.
+Proof. exact @fix_period_complete. Qed.
+Print Assumptions fix_period_reports_nonzero_slot.
+
+(* no row outside the window contributes: a series none of whose rows covers a slot of [from, to] reports nothing *)
+Theorem fix_period_ignores_rows_outside :
+  forall (V : Type) (is_zero : V -> bool) (zero : V) from step d, is_zero zero = true ->
+  forall to (bs : list (list (pentry V))) run,
+  0 <= Z.quot (to - from) step + 1 -> List.In run (runs (List.concat bs)) ->
+  (forall x i, List.In x run -> 0 <= i < Z.quot (to - from) step + 1 -> covers from step d x i = false) ->
+  export_run is_zero zero from step d (Z.quot (to - from) step + 1) run = [].
+Proof. exact @fix_period_outside. Qed.
+Print Assumptions fix_period_ignores_rows_outside.
+
+(* "covers" in time: slot t = from + i*step is covered by the window [b, b+d] iff t - d <= b < t + step *)
+Theorem fix_period_covers_in_time : forall (V : Type) from step d (x : pentry V) i,
+  0 < step -> from <= win_start d x -> 0 <= d ->
+  covers from step d x i = true <-> (from + i * step - d <= win_start d x < from + i * step + step).
+Proof. exact @covers_time. Qed.
+Print Assumptions fix_period_covers_in_time.
